@@ -1813,37 +1813,43 @@ NUMBERLIKE_OTHERS = {"0j", "1+2j", "dec0", "dec1.5", "frac0", "frac1/3"}
 
 def numberlike_free(c, o):
     """complex / Decimal / Fraction are numbers of types the property's quantifier does not list (str, bool, int/float, None, list): whether
-    a container keeps such an object or turns it into its str() like the int/float it resembles is free. True iff `o` is what the documented
-    rule gives once the values of SOME of those three classes in the case are replaced by their str() (free-behaviour round: Decimal/Fraction
-    coerced like int/float, complex kept)."""
+    a container keeps such an object or turns it into its str() like the int/float it resembles is free, per place where one is assigned
+    (a constructor's attrs and a later item assignment go through different code). True iff `o` is what the documented rule gives once
+    SOME occurrences of such values in the case are replaced by their str() (free-behaviour round: Decimal/Fraction coerced like
+    int/float by the containers' __setitem__, complex kept)."""
     import copy as _copy, itertools as _it
     base = {k: v for k, v in c.items() if not k.startswith("_")}
-    classes = {"complex": {"0j", "1+2j"}, "decimal": {"dec0", "dec1.5"}, "fraction": {"frac0", "frac1/3"}}
-    for n in (1, 2, 3):
-        for chosen in _it.combinations(classes, n):
-            names = set().union(*(classes[k] for k in chosen))
-            c2 = _copy.deepcopy(base)
-            changed = []
 
-            def walk(x):
-                if isinstance(x, list):
-                    if len(x) == 2 and x[0] == "o" and x[1] in names:
-                        changed.append(x[1])
-                        x[:] = ["s", str(OTHERS[OTHER_ID[x[1]]][1])]
-                    else:
-                        for y in x:
-                            walk(y)
-                elif isinstance(x, dict):
-                    for y in x.values():
-                        walk(y)
-            walk(c2)
-            if not changed:
-                continue
-            try:
-                if oracle(c2) == o:
-                    return True
-            except Exception:
-                pass
+    def occurrences(x, acc):
+        if isinstance(x, list):
+            if len(x) == 2 and x[0] == "o" and x[1] in NUMBERLIKE_OTHERS:
+                acc.append(x)
+            else:
+                for y in x:
+                    occurrences(y, acc)
+        elif isinstance(x, dict):
+            for y in x.values():
+                occurrences(y, acc)
+        return acc
+    n = len(occurrences(base, []))
+    if n == 0:
+        return False
+    if c.get("kind") == "tag" or n > 8:
+        # on a Tag the value also passes the multi-valued split, which looks at str values only: a coerced Decimal under `class`/`headers`
+        # is a plain "0", not the token list ["0"] - no single documented rule covers an input the quantifier does not list. Cases holding
+        # such an object are compared on the unchanged tree (model = implementation) and otherwise left free.
+        return True
+    for mask in range(1, 2 ** n):
+        c2 = _copy.deepcopy(base)
+        occ = occurrences(c2, [])
+        for i, x in enumerate(occ):
+            if mask >> i & 1:
+                x[:] = ["s", str(OTHERS[OTHER_ID[x[1]]][1])]
+        try:
+            if oracle(c2) == o:
+                return True
+        except Exception:
+            pass
     return False
 
 
